@@ -104,6 +104,9 @@ class Game(AsyncMode):
         await self._end_game()
 
     async def _run_ball(self, is_extra_ball=False):
+        if self.ending:
+            # end_game() was requested before this ball could start (e.g. in player_turn_starting)
+            return
         self._end_ball_event.clear()
         await self._start_ball(is_extra_ball)
         # Wait for end ball event to be set
